@@ -64,9 +64,10 @@ SPELL = ["plain", "dot", "dotdot", "redundant", "updown", "abs", "abs_redundant"
 FORMS = ["let", "expr", "called_func"]
 PROBES = ["pos_" + p for p in ALL_POS] + ["fail_msg_site", "decoy_value_distinguishable", "three_spelling_same_file", "diamond",
                                          "back_edge_let", "back_edge_expr", "back_edge_called_func", "back_edge_at_position", "back_edge_in_module", "back_edge_in_callback", "cycle_len_1", "cycle_len_2", "cycle_len_3",
-                                         "back_edge_respelled", "include_site", "lib_level_site", "fault_with_decoy", "identical_twin_files", "back_edge_via_hof", "entry_respelled"]
+                                         "back_edge_respelled", "include_site", "lib_level_site", "fault_with_decoy", "identical_twin_files", "back_edge_via_hof", "entry_respelled", "cwd_entered_through_symlink", "built_by_ucg_test"]
 DECOY_CWD = "decoy/d1/d2/d3"
-DIRSETS = [["", "lib"], ["", "lib", "lib/deep"], ["app", "lib"], ["app", "lib", "shared/x"], ["", "a", "a/b", "a/b/c"], ["app/svc", "lib", ""]]
+DIRSETS = [["", "lib"], ["", "lib", "lib/deep"], ["app", "lib"], ["app", "lib", "shared/x"], ["", "a", "a/b", "a/b/c"], ["app/svc", "lib", ""],
+           ["", "stdcfg"], ["app", "stdx/inner"]]
 
 
 def expected_site_value(pos, x):
@@ -95,7 +96,7 @@ def generate(rng, tier, idx):
     used = {files[0]["path"]}
     for i in range(nlibs):
         d = rng.choice(dirs)
-        base = rng.choice(["lib", "util", "common", "x"]) + ("%d" % i if rng.chance(70) else "")
+        base = rng.choice(["lib", "util", "common", "x", "stdlib", "std_cfg", "std"]) + ("%d" % i if rng.chance(70) else "")
         p = (d + "/" + base + ".ucg").lstrip("/")
         while p in used:
             base += "_"
@@ -139,7 +140,13 @@ def generate(rng, tier, idx):
     world = {"files": files, "data": data, "back_edge": None, "fault": None, "fail_site": None, "strict": True,
              "entry_abs": [rng.chance(25), rng.chance(25), rng.chance(25)], "dirs": dirs,
              # how the entry file itself is spelled on the command line (the top-level path is joined to the cwd, not normalised)
-             "entry_spell": [rng.weighted([("plain", 6), ("dot", 2), ("dotdot", 2)]) for _ in range(3)]}
+             "entry_spell": [rng.weighted([("plain", 6), ("dot", 2), ("dotdot", 2)]) for _ in range(3)],
+             # `ucg test` goes through the same import machinery with the validate flag set on the entry's VM only
+             "command": rng.weighted([("build", 4), ("test", 1)]),
+             # the shell's view of the working directory: $PWD (logical path); one of the three directories may be entered through a symlink
+             "cwd_symlinked": rng.chance(30)}
+    if world["command"] == "test":
+        files[0]["path"] = files[0]["path"][:-len("main.ucg")] + "main_test.ucg"
     # re-establish reachability after truncation
     reach = reachable(world)
     for j in range(1, n):
@@ -346,11 +353,15 @@ def render_file(world, i, proj_abs, ids, target_value):
     return "\n".join(L) + "\n"
 
 
+def fail_entry_name(world):
+    return "failmain_test.ucg" if world.get("command") == "test" else "failmain.ucg"
+
+
 def render_fail_entry(world, proj_abs):
     fs = world["fail_site"]
     f0 = world["files"][0]
     d = os.path.dirname(f0["path"])
-    p = spelled((d + "/failmain.ucg").lstrip("/"), world["files"][fs["target"]]["path"], fs["spelling"], proj_abs)
+    p = spelled((d + "/" + fail_entry_name(world)).lstrip("/"), world["files"][fs["target"]]["path"], fs["spelling"], proj_abs)
     if fs.get("fmt"):
         return 'let v = fail "stop: @" %% ((import "%s").id);\n' % p
     return 'let v = fail (import "%s").id;\n' % p
@@ -386,7 +397,7 @@ def execute(world, sb, res):
     entry_dir = os.path.dirname(files[0]["path"])
     fail_entry = None
     if world["fail_site"]:
-        fail_entry = (entry_dir + "/failmain.ucg").lstrip("/")
+        fail_entry = (entry_dir + "/" + fail_entry_name(world)).lstrip("/")
         sb.write("proj/" + fail_entry, render_fail_entry(world, proj_abs))
         res.probe("fail_msg_site")
     fault = world["fault"]
@@ -506,6 +517,17 @@ def execute(world, sb, res):
     nested = next((d for d in world["dirs"] if d and d != entry_dir), None)
     cwds = [("root", "proj"), ("nested", "proj/" + nested if nested else "elsewhere"), ("decoy", DECOY_CWD)]
     sb.mkdir("elsewhere")
+    command = world.get("command", "build")
+    logical = {}
+    if world.get("cwd_symlinked"):
+        # the second directory is entered through a symbolic link living somewhere else; the process's physical cwd is the target,
+        # $PWD keeps the link's path, relative arguments mean what the operating system says they mean (physical `..`)
+        sb.mkdir("links/here")
+        sb.symlink("links/here/into", os.path.relpath(sb.p(cwds[1][1]), sb.p("links/here")))
+        logical["nested"] = "links/here/into"
+        res.probe("cwd_entered_through_symlink")
+    if command == "test":
+        res.probe("built_by_ucg_test")
     entry = fail_entry if fail_entry else files[0]["path"]
     art = "proj/" + files[0]["path"][:-4] + ".json"
     observed = {}
@@ -523,8 +545,8 @@ def execute(world, sb, res):
             res.probe("entry_respelled")
         if sb.exists(art):
             sb.remove(art)
-        argv = ["build", arg] if world["strict"] else ["--no-strict", "build", arg]
-        inv = sb.invoke(argv, cwd=cwd)
+        argv = [command, arg] if world["strict"] else ["--no-strict", command, arg]
+        inv = sb.invoke(argv, cwd=logical.get(cname, cwd), env={"PWD": sb.p(logical.get(cname, cwd))})
         out = inv.out
         traces = _TRACE.findall(out)
         artifact = None
@@ -720,6 +742,8 @@ def shrink_candidates(world):
         yield dict(w, entry_abs=[False, False, False])
     if any(x != "plain" for x in w.get("entry_spell", [])):
         yield dict(w, entry_spell=["plain"] * 3)
+    if w.get("cwd_symlinked"):
+        yield dict(w, cwd_symlinked=False)
     # flatten directories
     for i, f in enumerate(files):
         if "/" in f["path"]:
